@@ -29,7 +29,10 @@ def unbold_tree(t: dict) -> dict:
         if n["t"] in ("Heading", "SetextHeading"):
             ch = n.get("c", [])
             if len(ch) == 1 and ch[0]["t"] == "StrongEmphasis":
-                n["c"] = ch[0].get("c", [])
+                # bold directly inside bold is still "entirely bold": every level goes (fix 2465fe2 made the code do this in one pass)
+                while len(ch) == 1 and ch[0]["t"] == "StrongEmphasis":
+                    ch = ch[0].get("c", [])
+                n["c"] = ch
             elif len(ch) == 1 and ch[0]["t"] == "Emphasis" and len(ch[0].get("c", [])) == 1 and ch[0]["c"][0]["t"] == "StrongEmphasis":
                 ch[0]["c"] = ch[0]["c"][0].get("c", [])
         for k in n.get("c", []):
